@@ -64,8 +64,10 @@ def oracle(rng, tier):
             yield {'kind': cfg['kind'] + ':raised', 'case': po.describe(cfg), 'ok': True, 'detail': '', 'nontrivial': False}
             continue
         ok, detail = check(pm, cfg, cd)
-        if ok and cfg['prog'] is None:
-            # twin of the other thermal kind from the same conditions: identical step 0
+        if ok and not rel_close(pm.feed_temperature[0], cfg['T0'], 1e-15):
+            ok, detail = False, 'step 0 reports feed temperature %r, the stated initial feed temperature is %r' % (pm.feed_temperature[0], cfg['T0'])
+        if ok:
+            # twin of the other thermal kind from the same conditions (a temperature programme does not act before step 1): identical step 0
             twin = dict(cfg)
             twin['kind'] = cfg['kind'].replace('_iso', '_X').replace('_noniso', '_iso').replace('_X', '_noniso')
             try:
